@@ -8,6 +8,7 @@ import socket
 import subprocess
 import sys
 import tempfile
+import threading
 import time
 
 from . import resp
@@ -81,6 +82,19 @@ def free_port():
     return p
 
 
+def _copy_stream(src, path):
+    try:
+        with open(path, "ab") as f:
+            while True:
+                d = src.read1(65536) if hasattr(src, "read1") else src.read(65536)
+                if not d:
+                    break
+                f.write(d)
+                f.flush()
+    except (OSError, ValueError):
+        pass
+
+
 def _child_listens(pid, port):
     want = "%04X" % port
     inodes = set()
@@ -144,7 +158,7 @@ class Server:
     """One private ferrous child process."""
 
     def __init__(self, binary, dirpath=None, password=None, appendonly=False, config_text=None,
-                 dbfilename=None, extra_env=None, wrapper=None, start_timeout=20.0):
+                 dbfilename=None, extra_env=None, wrapper=None, start_timeout=20.0, os_fault_mode=None):
         self.binary = binary
         self.own_dir = dirpath is None
         self.dir = dirpath or tempfile.mkdtemp(prefix="srv-", dir=scratch_root())
@@ -155,6 +169,11 @@ class Server:
         self.extra_env = extra_env or {}
         self.wrapper = wrapper or []
         self.start_timeout = start_timeout
+        # os_fault_mode: the child is going to run under a file-size limit (RLIMIT_FSIZE set from outside):
+        # "error" = SIGXFSZ ignored, writes beyond the limit fail with EFBIG; "kill" = default action, the
+        # kernel kills the child at that write. Its stderr then goes through a pipe (a pipe has no size limit;
+        # a log *file* would make every eprintln! fail too and manufacture panics the limit did not cause).
+        self.os_fault_mode = os_fault_mode
         self.proc = None
         self.port = None
         self.errlog = os.path.join(self.dir, "stderr.log")
@@ -179,10 +198,16 @@ class Server:
                 argv += ["--appendonly", "yes"]
             env = dict(_ENV)
             env.update(self.extra_env)
-            ef = open(self.errlog, "ab")
-            self.proc = subprocess.Popen(argv, cwd=self.dir, env=env, stdin=subprocess.DEVNULL,
-                                         stdout=subprocess.DEVNULL, stderr=ef)
-            ef.close()
+            if self.os_fault_mode:
+                pre = (lambda: signal.signal(signal.SIGXFSZ, signal.SIG_IGN)) if self.os_fault_mode == "error" else None
+                self.proc = subprocess.Popen(argv, cwd=self.dir, env=env, stdin=subprocess.DEVNULL,
+                                             stdout=subprocess.DEVNULL, stderr=subprocess.PIPE, preexec_fn=pre)
+                threading.Thread(target=_copy_stream, args=(self.proc.stderr, self.errlog), daemon=True).start()
+            else:
+                ef = open(self.errlog, "ab")
+                self.proc = subprocess.Popen(argv, cwd=self.dir, env=env, stdin=subprocess.DEVNULL,
+                                             stdout=subprocess.DEVNULL, stderr=ef)
+                ef.close()
             self.starts += 1
             t_end = time.monotonic() + self.start_timeout
             while time.monotonic() < t_end:
